@@ -63,6 +63,8 @@ Fixpoint dec_digits_fuel (fuel : nat) (n : N) (acc : str) : str :=
            if n / 10 =? 0 then acc' else dec_digits_fuel f (n / 10) acc'
   end.
 Definition dec_of_N (n : N) : str := dec_digits_fuel (S (N.to_nat (N.log2 n))) n [].
+(* decimal text, also for 0 *)
+Definition dec_of_N' (n : N) : str := if n =? 0 then [48] else dec_of_N n.
 Definition dec_of_Z (z : Z) : str :=
   match z with
   | Z0 => [48]
